@@ -1,6 +1,6 @@
 (* C05: trader actions never leave the trader under-margined.  Statements only. *)
 From MP.Model Require Import Prelude U128 SInt Feed Vamm VammOps Token World Engine Runtime.
-From MP.Proofs Require Import Tactics EngineGuards.
+From MP.Proofs Require Import Tactics EngineGuards EngineArith CloseFacts MoreFacts.
 
 (* leverage below 1 or above 1/initial-margin-ratio is rejected *)
 Theorem C05_leverage_bounds : forall w t v s m l lim f r,
@@ -9,3 +9,41 @@ Theorem C05_leverage_bounds : forall w t v s m l lim f r,
   e_dec (ec (w_eng w)) <= l /\ l * e_init (ec (w_eng w)) <= e_dec (ec (w_eng w)) * e_dec (ec (w_eng w)).
 Proof. exact open_leverage_bounds. Qed.
 Print Assumptions C05_leverage_bounds.
+
+(* every successful increase / reduce / reverse reply ends with the margin-ratio guard evaluated on the
+   state it stores: the ratio of the stored position, recomputed from the post-swap vAMM, is not below
+   the maintenance ratio *)
+Theorem C05_post_trade_ratio : forall w i o id w' subs tm,
+  update_position_reply w i o id = Ok (w', subs) -> e_tmp (w_eng w) = Some tm ->
+  exists mr, query_margin_ratio w' (ts_vamm tm) (ts_trader tm) = Ok mr /\
+             sltb mr (spos (e_maint (ec (w_eng w')))) = false.
+Proof. exact update_position_reply_ratio. Qed.
+Print Assumptions C05_post_trade_ratio.
+
+(* WithdrawMargin: the wallet receives exactly `amount`, the stored margin falls by amount + funding
+   owed and stays non-negative (a withdrawal that creates bad debt is rejected), the checkpoint moves,
+   and free collateral after subtracting the amount is non-negative *)
+Theorem C05_withdraw : forall w t v amount w' msgs,
+  e_withdraw_margin w t v amount = Ok (w', msgs) ->
+  let p := read_position (w_eng w) v t in
+  pos_wf p -> cpf_wf (w_eng w) v -> 0 < e_dec (ec (w_eng w)) -> 0 <= amount ->
+  exists p', find_position (w_eng w') v t = Some p' /\
+    p_margin p' = p_margin p - amount - funding_owed w v p /\ 0 <= p_margin p' /\
+    p_lupf p' = cumulative_premium_fraction (w_eng w) v /\
+    p_size p' = p_size p /\ p_dir p' = p_dir p /\ p_notional p' = p_notional p /\
+    transfers_to t msgs = amount /\
+    amount <> 0 /\ e_pause (es (w_eng w)) = false /\
+    exists fc fc', query_free_collateral w v t = Ok fc /\ schecked_sub fc (spos amount) = Ok fc' /\ s_is_negative fc' = false.
+Proof. exact withdraw_margin_spec. Qed.
+Print Assumptions C05_withdraw.
+
+(* DepositMargin raises the stored margin by exactly the amount taken from the wallet and changes
+   nothing else of the position *)
+Theorem C05_deposit : forall w t v amount funds w' msgs,
+  e_deposit_margin w t v amount funds = Ok (w', msgs) ->
+  exists p, find_position (w_eng w) v t = Some p /\
+    find_position (w_eng w') v t = Some (mkPos (p_dir p) (p_size p) (p_margin p + amount) (p_notional p) (p_lupf p) (p_block p)) /\
+    amount <> 0 /\ e_pause (es (w_eng w)) = false /\
+    (if t_native (w_tok w) then funds = amount /\ msgs = [] else msgs = [execute_transfer_from w t A_ENGINE amount]).
+Proof. exact deposit_margin_spec. Qed.
+Print Assumptions C05_deposit.
